@@ -114,7 +114,7 @@ class C03Spec:
         def wrapper(w):
             kind, c, doms = WRAPPERS[w]
             if kind == "rename":
-                return DomainRenamer("other") if w == "DR" else DomainRenamer({"sync": "other"})
+                return DomainRenamer("other") if w == "DR" else DomainRenamer(dict(doms))
             cls = ResetInserter if kind == "reset" else EnableInserter
             if doms == ("sync",):
                 return cls(ctl[c])                       # short form: the sync domain only
@@ -222,11 +222,15 @@ def configs(rep):
         if sub or top:
             out.append({"doms": pair0, "top": top, "sub": sub, "logic_b": False})
     if not rep.quick:
-        for pair in ({"sync": ("neg", "async"), "other": ("pos", "none")}, {"sync": ("pos", "none"), "other": ("pos", "sync")},
-                     {"sync": ("neg", "sync"), "other": ("neg", "sync")}):
-            for sub, top in nestings(full, 2):
-                if sub or top:
-                    out.append({"doms": pair, "top": top, "sub": sub, "logic_b": False})
+        # more domain pairs, and the swapping renamer DX, with <= 2 wrappers
+        pairs = (pair0, {"sync": ("neg", "async"), "other": ("pos", "none")}, {"sync": ("pos", "none"), "other": ("pos", "sync")},
+                 {"sync": ("neg", "sync"), "other": ("neg", "sync")})
+        for pair in pairs:
+            for sub, top in nestings(full + ["DX"], 2):
+                c = {"doms": pair, "top": top, "sub": sub, "logic_b": False}
+                if (sub or top) and c not in out:
+                    out.append(c)
+        # single-domain designs of every kind under the inserters
         for ka in KINDS:
             for sub, top in nestings(one, 2):
                 if sub or top:
@@ -309,7 +313,12 @@ def run(rep):
                "{data bit, inserted controls, synchronous domain resets} followed by every single level event (toggle of any "
                "non-empty subset of clocks at once | flip of one asynchronous reset); complete state compared after every event. "
                "Designs: all 6 single-domain and all 36 two-domain kind combinations (pos/neg x sync/async/reset-less) without "
-               "wrappers; every (submodule, top) nesting of <= %d wrappers from the alphabet over fixed domain pairs" % rep.pick(2, 3))
+               "wrappers; " + rep.pick(
+                   "every (submodule, top) nesting of <= 2 wrappers from {R1,R2,E1,E2,DR} over the domain pair sync=pos/sync-reset, "
+                   "other=neg/async-reset",
+                   "every (submodule, top) nesting of <= 3 wrappers from {R1,R2,E1,E2,DR} over the domain pair sync=pos/sync-reset, "
+                   "other=neg/async-reset; every nesting of <= 2 wrappers from {R1,R2,E1,E2,DR,DX} over 4 domain pairs; every nesting "
+                   "of <= 2 inserters over all 6 single-domain kinds"))
     if not rep.cov.get("designs_crashed"):      # (a design that raised is already a violation; its graph is missing)
         for need in NEED:
             rep.require(need in allflags, f"antecedent '{need}' never exercised")
